@@ -11,6 +11,7 @@ import (
 	"fmt"
 	"io"
 	"os"
+	"reflect"
 	"runtime"
 	"strconv"
 	"sync"
@@ -53,6 +54,7 @@ type Result struct {
 	Panic      interface{}
 	PanicStack string
 	Steps      int
+	Faults     []string // access conflicts on tracked maps (see TrackMap)
 }
 
 type thread struct {
@@ -123,6 +125,9 @@ func ThreadID() int {
 func Run(prefix []int, maxSteps int, main func()) Result {
 	s := &Sched{byGid: map[int64]*thread{}, prefix: prefix, fin: make(chan struct{}), maxStep: maxSteps}
 	active.Store(s)
+	trackMu.Lock()
+	openIter = map[uintptr]map[int]int{}
+	trackMu.Unlock()
 	atomic.StoreInt32(&nManaged, 1)
 	t0 := &thread{id: 0, wake: make(chan struct{}, 1)}
 	s.threads = append(s.threads, t0)
@@ -178,6 +183,13 @@ func (s *Sched) finish(th *thread) {
 	th.done = true
 	delete(s.byGid, gid())
 	s.mu.Unlock()
+	if atomic.LoadInt32(&nTracked) != 0 {
+		trackMu.Lock()
+		for _, m := range openIter {
+			delete(m, th.id)
+		}
+		trackMu.Unlock()
+	}
 	next := s.pick(th)
 	if next != nil {
 		next.wake <- struct{}{}
@@ -440,3 +452,139 @@ func (p pw) Write(b []byte) (int, error) {
 
 // W wraps a writer so that each Write is a Point.
 func W(w io.Writer) io.Writer { return pw{w} }
+
+// ---------------------------------------------------------------------------
+// tracked maps: a model of the Go runtime's "concurrent map iteration and map
+// write" abort under the cooperative scheduler. vinstr inserts the hooks in
+// package routing and in the serialisers of the routing metadata blocks; they do
+// nothing unless the harness tracks the map. A range over a tracked map is a
+// sequence of schedule points (one per element); a write to it by another
+// managed thread while an iteration is open is recorded as a fault of the
+// execution (the real runtime would abort the process when the two overlap).
+
+var (
+	trackMu  sync.Mutex
+	tracked  = map[uintptr]string{}
+	nTracked int32
+	openIter = map[uintptr]map[int]int{} // map -> thread id -> open iterations
+)
+
+func mapPtr(m interface{}) uintptr {
+	v := reflect.ValueOf(m)
+	for v.Kind() == reflect.Ptr && !v.IsNil() {
+		v = v.Elem()
+	}
+	if v.Kind() != reflect.Map || v.IsNil() {
+		return 0
+	}
+	return v.Pointer()
+}
+
+// TrackMap makes the map m (or the map *m) a tracked map called name.
+func TrackMap(m interface{}, name string) {
+	p := mapPtr(m)
+	if p == 0 {
+		return
+	}
+	trackMu.Lock()
+	tracked[p] = name
+	atomic.StoreInt32(&nTracked, int32(len(tracked)))
+	trackMu.Unlock()
+}
+
+// UntrackMaps forgets all tracked maps and open iterations.
+func UntrackMaps() {
+	trackMu.Lock()
+	tracked = map[uintptr]string{}
+	openIter = map[uintptr]map[int]int{}
+	atomic.StoreInt32(&nTracked, 0)
+	trackMu.Unlock()
+}
+
+func trackedPtr(m interface{}) (uintptr, *Sched, *thread) {
+	if atomic.LoadInt32(&nTracked) == 0 || atomic.LoadInt32(&nManaged) == 0 {
+		return 0, nil, nil
+	}
+	s, th := current()
+	if th == nil {
+		return 0, nil, nil
+	}
+	p := mapPtr(m)
+	if p == 0 {
+		return 0, nil, nil
+	}
+	trackMu.Lock()
+	_, ok := tracked[p]
+	trackMu.Unlock()
+	if !ok {
+		return 0, nil, nil
+	}
+	return p, s, th
+}
+
+// MapIterBegin opens an iteration over m by the calling thread; the result is
+// passed to MapIterStep (first statement of the loop body) and MapIterEnd.
+func MapIterBegin(m interface{}) uintptr {
+	p, _, th := trackedPtr(m)
+	if p == 0 {
+		return 0
+	}
+	trackMu.Lock()
+	if openIter[p] == nil {
+		openIter[p] = map[int]int{}
+	}
+	openIter[p][th.id]++
+	trackMu.Unlock()
+	return p
+}
+
+// MapIterStep is a schedule point between two elements of an iteration.
+func MapIterStep(p uintptr) {
+	if p == 0 {
+		return
+	}
+	Yield(nil, "map-iter")
+}
+
+// MapIterEnd closes the iteration.
+func MapIterEnd(p uintptr) {
+	if p == 0 {
+		return
+	}
+	_, th := current()
+	if th == nil {
+		return
+	}
+	trackMu.Lock()
+	if openIter[p][th.id] > 0 {
+		openIter[p][th.id]--
+	}
+	trackMu.Unlock()
+}
+
+// MapWrite precedes a statement that assigns to or deletes from m.
+func MapWrite(m interface{}) {
+	p, s, th := trackedPtr(m)
+	if p == 0 {
+		return
+	}
+	Yield(nil, "map-write")
+	trackMu.Lock()
+	name := tracked[p]
+	var others []int
+	for tid, n := range openIter[p] {
+		if tid != th.id && n > 0 {
+			others = append(others, tid)
+		}
+	}
+	trackMu.Unlock()
+	if len(others) > 0 {
+		buf := make([]byte, 4096)
+		st := string(buf[:runtime.Stack(buf, false)])
+		s.mu.Lock()
+		if len(s.res.Faults) < 8 {
+			s.res.Faults = append(s.res.Faults, fmt.Sprintf("concurrent map iteration and map write: thread T%d writes %s while thread(s) %v iterate over it\n%s", th.id, name, others, st))
+		}
+		s.mu.Unlock()
+	}
+}
